@@ -36,12 +36,19 @@ class Bool:
 
 
 class Int:
-    __slots__ = ('lo', 'hi', 'form', '_iid')
+    __slots__ = ('lo', 'hi', 'form', '_iid', 'deps')
 
     def __init__(self, lo=None, hi=None, form=None):
         self.lo, self.hi = lo, hi
         self.form = form      # None or (dict cell -> (kind, coeff)), const): value == const + sum coeff*val(cell)
         self._iid = None
+        self.deps = frozenset()   # input cells this integer was computed from (coverage only)
+
+    def alldeps(self):
+        d = self.deps
+        if self.form is not None:
+            d = d | frozenset(cell for (_k, cell) in self.form[0] if not isinstance(cell, frozenset))
+        return d
 
     @property
     def iid(self):
